@@ -138,13 +138,18 @@ pub fn mutate_message(rep: &mut Rep, c: &mut Ctx, msg: &[u8], signal: &[u8], roo
     sigs.push(("append-zero".into(), ext.clone(), None));
     // declared length one more, buffer extended accordingly (so that the parse succeeds)
     sigs.push(("declared-len+1".into(), ext, Some(signal.len() as u64 + 1)));
+    // the same bytes under a length field that differs only in its upper half (a reader of the low 32 bits only
+    // would hash the original signal)
+    for k in [32u32, 33, 47, 63] {
+        sigs.push((format!("declared-len+2^{k}"), signal.to_vec(), Some(signal.len() as u64 + (1u64 << k))));
+    }
     for (sl, s, declared) in sigs {
         let mut req2 = msg.to_vec();
         req2.extend(enc_u64(declared.unwrap_or(s.len() as u64)));
         req2.extend_from_slice(&s);
         // skip mutations that leave the hashed signal identical
         let hashed_len = declared.unwrap_or(s.len() as u64) as usize;
-        if s.len() >= hashed_len && s[..hashed_len] == signal[..] {
+        if declared.map(|d| d <= s.len() as u64).unwrap_or(true) && s.len() >= hashed_len && s[..hashed_len] == signal[..] {
             continue;
         }
         for (which, v) in [("verify_rln_proof", v_rln(c, &req2)), ("verify_with_roots", v_roots(c, &req2, &roots1))] {
